@@ -31,8 +31,8 @@ META = {
 def configs(tier, seed):
     out = []
     bcs = [(1, 1), (2, 1), (1, 3), (2, 2)] if tier == 'quick' else [(1, 1), (2, 1), (1, 3), (2, 3), (3, 4)]
-    d1 = [('db2', 'zero', 2, 9), ('bior2.4', 'symmetric', 1, 12), ('db3', 'periodization', 2, 12), ('sym4', 'reflect', 1, 11), ('haar', 'periodic', 3, 10)]
-    d2 = [('db2', 'symmetric', 2, 6, 7), ('haar', 'zero', 2, 5, 6), ('db2', 'periodization', 1, 6, 8), ('bior1.3', 'reflect', 1, 7, 7), ('db3', 'periodic', 1, 6, 6)]
+    d1 = [('haar', 'periodization', 2, 8), ('db4', 'periodization', 1, 4), ('db2', 'zero', 2, 9), ('bior2.4', 'symmetric', 1, 12), ('db3', 'periodization', 2, 12), ('sym4', 'reflect', 1, 11), ('haar', 'periodic', 3, 10)]
+    d2 = [('haar', 'periodization', 1, 4, 6), ('db3', 'periodization', 2, 6, 4), ('db2', 'symmetric', 2, 6, 7), ('haar', 'zero', 2, 5, 6), ('db2', 'periodization', 1, 6, 8), ('bior1.3', 'reflect', 1, 7, 7), ('db3', 'periodic', 1, 6, 6)]
     if tier == 'thorough':
         d1 += [('db4', 'zero', 3, 17), ('coif1', 'symmetric', 2, 13), ('rbio1.3', 'periodization', 2, 16), ('db8', 'zero', 1, 20)]
         d2 += [('sym4', 'symmetric', 1, 9, 8), ('db2', 'zero', 3, 12, 12), ('bior2.4', 'periodization', 1, 10, 12)]
